@@ -68,6 +68,7 @@ from typing import (
     List,
     Optional,
     Set,
+    Tuple,
     TypeVar,
 )
 
@@ -741,7 +742,7 @@ def _force_trigger_tasks(
 
     warnings_flow_none = []
     warnings_has_job = []
-    active_completed_outputs = {}
+    active_completed_outputs: Set[Tuple[str, str, str]] = set()
     inactive: Set[TaskTokens] = set(group_ids)
     for itask in active:
         # Find active group start tasks (parentless, or with only off-group
@@ -775,10 +776,10 @@ def _force_trigger_tasks(
                 continue
 
             if itask.state(*TASK_STATUSES_ACTIVE):
-                for (label, msg, completed) in itask.state.outputs:
+                for (_label, msg, completed) in itask.state.outputs:
                     if completed:
-                        active_completed_outputs[
-                            (str(itask.point), itask.tdef.name)] = (label, msg)
+                        active_completed_outputs.add(
+                            (str(itask.point), itask.tdef.name, msg))
 
             if itask.state(TASK_STATUS_PREPARING, *TASK_STATUSES_ACTIVE):
                 # This is a live active group start task
@@ -879,7 +880,10 @@ def _force_trigger_tasks(
                 PrereqTuple(str(key.point), str(key.task), key.output)
                 for pre in _prereqs
                 for key in pre.keys()
-                if (str(key.point), key.task) in active_completed_outputs
+                if (
+                    (str(key.point), key.task, key.output)
+                    in active_completed_outputs
+                )
             })
 
             if (
